@@ -55,12 +55,16 @@ func (ec *ErrorContainer) AddErrorList(el []error) {
 		if el[i] != nil {
 			continue
 		}
-		// drat, long way around
+		// drat, long way around; el may share storage with our own list (a
+		// caller may have extended the list which Errors() handed out), so
+		// gather what is to be kept before touching our list
+		keep := make([]error, 0, len(el))
 		for j := range el {
 			if el[j] != nil {
-				ec.errors_ = append(ec.errors_, el[j])
+				keep = append(keep, el[j])
 			}
 		}
+		ec.errors_ = append(ec.errors_, keep...)
 		return
 	}
 	ec.errors_ = append(ec.errors_, el...)
